@@ -259,6 +259,18 @@ pub fn config_by_name(name: &str) -> Option<SpaceCfg> {
         // the names {a, a.b}: the stem of one name is the other name, so a stem/extension helper used where the
         // whole final component is meant (name vs base) makes two different entries collide
         "Ad" => base_cfg(name, ops_structure(true).iter().map(dotted_names).collect(), n, 2),
+        // replacing moves and copies between two populated trees: starts from states the entry bound of the
+        // other configurations cannot hold (a directory with contents moved onto an existing empty
+        // directory of the same name inside another directory), over a small alphabet
+        "M" => {
+            let mut c = base_cfg(name, ops_replace(), n, 3);
+            c.inits = vec![
+                (s("fresh"), vec![]),
+                (s("two trees: /a/{a/,b} and /b/a/"), vec![Op::MkdirP(s("/a/a")), Op::WriteAll(s("/a/b"), b"x".to_vec()), Op::MkdirP(s("/b/a"))]),
+                (s("two trees: /a/a/a and /b/a (file)"), vec![Op::MkdirP(s("/a/a")), Op::WriteAll(s("/a/a/a"), b"y".to_vec()), Op::MkdirP(s("/b")), Op::WriteAll(s("/b/a"), b"z".to_vec())]),
+            ];
+            c
+        },
         "B" => {
             let mut c = base_cfg(name, ops_content(), n, 1);
             c.max_content = 3;
@@ -279,6 +291,28 @@ pub fn config_by_name(name: &str) -> Option<SpaceCfg> {
         },
         _ => return None,
     })
+}
+
+/// moves, copies and removals between the two top-level trees /a and /b (configuration M)
+pub fn ops_replace() -> Vec<Op> {
+    vec![
+        Op::MoveP(s("/a"), s("/b")),
+        Op::MoveP(s("/b"), s("/a")),
+        Op::MoveP(s("/a/a"), s("/b")),
+        Op::MoveP(s("/a/a"), s("/b/a")),
+        Op::MoveP(s("/a/b"), s("/b/a")),
+        Op::MoveP(s("/b/a"), s("/a")),
+        Op::MoveP(s("/a"), s("/b/a")),
+        Op::Copy(s("/a"), s("/b")),
+        Op::Copy(s("/b/a"), s("/a/a")),
+        Op::Remove(s("/b/a")),
+        Op::RemoveAll(s("/b/a")),
+        Op::RemoveAll(s("/a")),
+        Op::MkdirP(s("/b/a")),
+        Op::Mkfile(s("/b/a/b")),
+        Op::Symlink(s("/b/b"), s("/a")),
+        Op::WriteAll(s("/a/b"), b"w".to_vec()),
+    ]
 }
 
 /// rename b -> a.b in every path argument
@@ -456,8 +490,8 @@ pub fn stats_json(name: &str, st: &SpaceStats) -> J {
 
 pub fn tier_configs(tier: Tier) -> Vec<&'static str> {
     match tier {
-        Tier::Quick => vec!["A-3", "Ap-2", "Ad-2", "C-2", "B-2", "D-3"],
-        Tier::Thorough => vec!["A-4", "Ap-3", "Ad-3", "C-3", "B-2", "D-3"],
+        Tier::Quick => vec!["A-3", "Ap-2", "Ad-2", "M-5", "C-2", "B-2", "D-3"],
+        Tier::Thorough => vec!["A-4", "Ap-3", "Ad-3", "M-8", "C-3", "B-2", "D-3"],
     }
 }
 
